@@ -68,7 +68,7 @@ def gen_template(r):
     """returns (principal, action, resource, context, ignored-parts)"""
     ignored = set()
     k = r.random()
-    if k < 0.45: p = UA if r.random() < 0.7 else UB
+    if k < 0.45: p = r.choice([UA, UA, UA, UA, UA, UA, UB, UB, UB, gen.vent('', '')])      # (a known principal may be the zero uid)
     elif k < 0.9: p = var('p')
     else:
         p = ign(); ignored.add('principal')
